@@ -19,6 +19,10 @@ pub enum BOp {
   Footer(String),
   Assertion(String),
   Build,
+  /// elsewhere on this thread a claim that cannot be serialised is handed to throwaway builders (no effect on the model)
+  OtherBuildersFail,
+  /// `build` with a private key that cannot sign (public protocols; an ordinary build for local ones)
+  BuildWithUnusableKey,
 }
 
 impl BOp {
@@ -29,6 +33,8 @@ impl BOp {
       BOp::Footer(_) => "footer".into(),
       BOp::Assertion(_) => "assertion".into(),
       BOp::Build => "build".into(),
+      BOp::OtherBuildersFail => "other-builders-fail".into(),
+      BOp::BuildWithUnusableKey => "build(unusable key)".into(),
     }
   }
 }
@@ -59,6 +65,8 @@ pub struct BuildObs {
   pub builds_before: usize,
   /// 0 or 1: which of the two builders
   pub builder: usize,
+  /// the build was given a private key that cannot sign: it cannot return a token, only the reason is judged
+  pub unusable_key: bool,
 }
 
 pub struct Run {
@@ -75,6 +83,7 @@ pub fn interpret(c: &HistCase) -> Run {
   let p = c.proto;
   let km = keys::material(p, &gen::arr32(&c.seed));
   let lk = km.lib().expect("valid key");
+  let bad_km = keys::unusable_signing_material(p, &gen::arr32(&c.seed));
   let t0 = tgen::now();
   let mut builders = [new_builder(p, Layer::Prelude), new_builder(p, Layer::Prelude)];
   let t1 = tgen::now();
@@ -118,8 +127,13 @@ pub fn interpret(c: &HistCase) -> Run {
           assertion[w] = Some(a.as_str());
         }
       }
-      BOp::Build => {
-        let r = b.build(&lk);
+      BOp::OtherBuildersFail => fail_a_claim_on_throwaway_builders(),
+      BOp::Build | BOp::BuildWithUnusableKey => {
+        let unusable = if matches!(op, BOp::BuildWithUnusableKey) { bad_km.as_ref().and_then(|k| k.lib().ok()) } else { None };
+        let r = match &unusable {
+          Some(bk) => b.build(bk),
+          None => b.build(&lk),
+        };
         let result = match r {
           Err(e) => Err(e),
           Ok(token) => {
@@ -135,7 +149,7 @@ pub fn interpret(c: &HistCase) -> Run {
             }
           }
         };
-        run.builds.push(BuildObs { index: i, result, supplied: supplied[w].clone(), ack: ack[w], exp_after_ack: exp_after_ack[w], exp_before_ack: exp_before_ack[w], builds_before: nbuilds[w], builder: w });
+        run.builds.push(BuildObs { index: i, result, supplied: supplied[w].clone(), ack: ack[w], exp_after_ack: exp_after_ack[w], exp_before_ack: exp_before_ack[w], builds_before: nbuilds[w], builder: w, unusable_key: unusable.is_some() });
         nbuilds[w] += 1;
       }
     }
@@ -375,6 +389,8 @@ pub fn random_op() -> BoxedStrategy<BOp> {
     // a payload beyond 64 KiB
     1 => (0u32..3).prop_map(|i| BOp::Set(ClaimSpec::Custom("blob".into(), Value::String("b".repeat([65_536usize, 70_000, 200_000][i as usize]))))),
     3 => Just(BOp::Ack),
+    1 => Just(BOp::OtherBuildersFail),
+    1 => Just(BOp::BuildWithUnusableKey),
     2 => gen::jsonish(8).prop_map(BOp::Footer),
     2 => gen::jsonish(8).prop_map(BOp::Assertion),
     6 => Just(BOp::Build),
@@ -431,7 +447,6 @@ pub fn run(ctx: &Ctx) -> EvidenceMeta {
       }
     } else {
       let n = (ctx.n(10_000, 100_000) / s.proto.cost().min(20)).max(300);
-      let n = if child { (n / 10).max(60) } else { n };
       jobs.push(Box::new(move || ctx.prop(s, random_case(s.proto, 30), n)));
     }
   }
